@@ -112,3 +112,29 @@ def float_cross(ck, calls, rtol=1e-9, cond_limit=1e6):
 
 def loguniform(rng, lo, hi):
     return math.exp(rng.uniform(math.log(lo), math.log(hi)))
+
+
+def replay_by_rerun(prop, path, make_ck, explore):
+    """Generic replay for generated (seeded) cases: re-run the deterministic exploration with the
+    recorded seed and tier on the real code (oracle only, no model) and report whether a violation
+    with the recorded case appears again.  Exit 1 if it reproduces, 0 otherwise."""
+    import json
+    import os
+    obj = json.load(open(path))
+    if obj.get("kind") != "failing-input" or "case" not in obj:
+        print(json.dumps(obj, indent=1)[:3000])
+        print("NOT-REPLAYABLE: this replay names a broken proof obligation / correspondence, no failing input was found")
+        raise SystemExit(1)
+    os.environ["VERIF_SEED"] = str(obj.get("seed", 0))
+    os.environ["VERIF_TIER"] = str(obj.get("tier", "quick"))
+    os.environ["VERIF_EVIDENCE_DIR"] = "/tmp"
+    ck = make_ck()
+    explore(ck)
+    want = json.dumps(obj["case"], sort_keys=True, default=str)
+    hits = [v for v in ck.violations if json.dumps(v["case"], sort_keys=True, default=str) == want]
+    same_kind = [v for v in ck.violations if v["what"][:40] == str(obj.get("what", ""))[:40]]
+    for v in (hits or same_kind)[:3]:
+        print("REPRODUCED:", v["what"])
+    if not hits and not same_kind:
+        print(f"not reproduced on the current code ({len(ck.violations)} other violations)")
+    raise SystemExit(1 if (hits or same_kind) else 0)
